@@ -198,12 +198,14 @@ fn start_watchdog(limit: Duration) {
       let mut idle_windows = 0;
       let mut window_start = Instant::now();
       let mut window_ticks = cpu_ticks();
+      let mut ticks_at_progress = cpu_ticks();
       loop {
          std::thread::sleep(Duration::from_millis(500));
          let now = PROGRESS.load(Ordering::Relaxed);
          if now != last {
             last = now;
             since = Instant::now();
+            ticks_at_progress = cpu_ticks();
             idle_windows = 0;
             window_start = Instant::now();
             window_ticks = cpu_ticks();
@@ -242,6 +244,25 @@ fn start_watchdog(limit: Duration) {
                "input": cur.as_ref().map(|c| c.1.clone()),
                "ops": cur.as_ref().and_then(|c| c.2.clone()),
             });
+            // CPU time consumed since the last progress (clock ticks of 10 ms). Every case reaches the compiled programs
+            // only after the bounded reference evaluator has finished it (at most 3 * 10^6 naive steps, 6 * 10^4 rows),
+            // which compiled code does in well under a second: 150 s of CPU on one case is not slowness of the machine
+            // (CPU time does not grow while the process waits for a core) but a run() that does not terminate
+            let cpu_s = match (ticks_at_progress, cpu_ticks()) {
+               (Some(a), Some(b)) => b.saturating_sub(a) / 100,
+               _ => 0,
+            };
+            if cpu_s >= 150 {
+               let mut j = j.clone();
+               j["cpu_seconds_since_progress"] = serde_json::json!(cpu_s);
+               if let Some(out) = OUT_PATH.lock().unwrap().clone() {
+                  std::fs::write(format!("{out}.divergence.json"), serde_json::to_string_pretty(&j).unwrap()).ok();
+               }
+               eprintln!("WATCHDOG: current case: {:?}", cur.as_ref().map(|c| c.0.clone()));
+               eprintln!("WATCHDOG: no progress for {:?} while the process consumed {cpu_s} s of CPU: run() does not terminate", limit);
+               println!("DIVERGENCE");
+               std::process::exit(4);
+            }
             if let Some(out) = OUT_PATH.lock().unwrap().clone() {
                std::fs::write(format!("{out}.runaway.json"), serde_json::to_string_pretty(&j).unwrap()).ok();
             }
